@@ -147,7 +147,7 @@ pub fn pool_request(v: Version, k: usize) -> Vec<u8> {
 ///  10 / 11: an IETF request whose SRV value is only the first 16 bytes of the default in-process
 ///      server's value / is empty (a value that is not this server's)
 pub fn bad_datagram(variant: usize) -> Vec<u8> {
-    match variant % 12 {
+    match variant % 15 {
         0 => {
             // right length, not a message
             let mut d = vec![0x03, 0, 0, 0, 0xff, 0xff, 0xff, 0xff];
@@ -169,12 +169,25 @@ pub fn bad_datagram(variant: usize) -> Vec<u8> {
         6 => rtref::responder::ietf_request(&[0, 0, 0, 0], None, &nonce(0x9103, 32), 1024),
         7 | 8 => {
             let mut d = rtref::responder::classic_request(&nonce(0x9104, 64), 1024);
-            d.extend(std::iter::repeat(0x5a).take(if variant % 12 == 7 { 1 } else { 3 }));
+            d.extend(std::iter::repeat(0x5a).take(if variant % 15 == 7 { 1 } else { 3 }));
             d
         }
         9 => rtref::responder::ietf_request(&rtref::proto::VER_IETF13, Some(&crypto::srv_value(&crypto::public_key(&[0x33; 32]))), &nonce(0x9105, 32), 1024),
         10 => rtref::responder::ietf_request(&rtref::proto::VER_IETF13, Some(&crypto::srv_value(&crypto::public_key(&crate::inproc::DEFAULT_SEED))[..16]), &nonce(0x9106, 32), 1024),
         11 => rtref::responder::ietf_request(&rtref::proto::VER_IETF13, Some(&[]), &nonce(0x9107, 32), 1024),
+        // framed requests whose length field disagrees with the bytes that follow the header: a valid
+        // request with 4 / 1 trailing bytes, and one whose length field is lowered by 4
+        12 | 13 => {
+            let mut d = rtref::responder::ietf_request(&rtref::proto::VER_IETF13, None, &nonce(0x9108, 32), 1024);
+            d.extend(std::iter::repeat(0u8).take(if variant % 15 == 12 { 4 } else { 1 }));
+            d
+        }
+        14 => {
+            let mut d = rtref::responder::ietf_request(&rtref::proto::VER_IETF13, None, &nonce(0x9109, 32), 1024);
+            let l = u32::from_le_bytes(d[8..12].try_into().unwrap());
+            d[8..12].copy_from_slice(&(l - 4).to_le_bytes());
+            d
+        }
         _ => {
             let mut d = rtref::responder::classic_request(&nonce(0x9102, 64), 1024);
             d.truncate(1020);
